@@ -209,6 +209,7 @@ def file_tasks(args):
 
 def describe(tr, r, info):
     end = tr[-1]
+    r = max(r, 1)
     ev = tr[r] if r < len(tr) else {}
     flags = []
     if end["out"].startswith("other") or end["out"] == "timeout":
